@@ -294,7 +294,10 @@ def directed_scenarios(rng, thorough):
             if e.get("p"):
                 e["p"] = inv[e["p"] - 1] + 1
             if e["a"] == "raw" and "p" in e["act"]:
-                e["act"] = dict(e["act"], p="p%d" % (inv[int(e["act"]["p"][1:]) - 1] + 1))
+                ren = lambda q: ("p%d" % (inv[int(q[1:]) - 1] + 1)) if re.fullmatch(r"p\d+", q) and int(q[1:]) <= len(classes) else q
+                e["act"] = dict(e["act"], p=ren(e["act"]["p"]))
+                if "px" in e["act"]:
+                    e["act"]["px"] = [ren(q) for q in e["act"]["px"]]
             evs.append(e)
         out.append(Builder(par, rng, tag, opp, **cfg_extra).scenario(init_from_classes(cl, joined), evs))
 
@@ -380,6 +383,27 @@ def directed_scenarios(rng, thorough):
         add("join-after-fanout-member-left", par, fan, [ev("down", 3, "none"), HB, ev("join"), HB], joined=False)
         add("join-after-fanout-member-left", par, fan, [raw(a="blacklist", p="p2"), ev("join"), HB, HB], joined=False)
         add("join-after-fanout-member-left", par, fan, [raw(a="resetIn", p="p2"), raw(a="adv", ms=30), raw(a="resetIn", p="p2"), ev("join"), HB, HB], joined=False)
+    # a mesh member PRUNEs us, with and without peer exchange, entitled to it or not (AcceptPXThreshold is 2): it is backed
+    # off whatever became of its PX records; afterwards the mesh is below Dlo with the pruner as the only tempting candidate
+    # (wanted > eligible: every peer passing the filter would be grafted), or not below Dlo; heartbeats inside the backoff
+    for par in [std, (4, 3, 5, 2, 1), (2, 1, 3, 1, 0)]:
+        dlo = par[1]
+        pxs = [None, ["p3"], ["p3", "p4"], ["garbage-id", "p3"], ["p3", "p4", "p5", "x1", "x2"]]
+        for below in (True, False):
+            nmem = dlo if below else dlo + 2
+            for sc_pruner in (0, 1, 3):
+                for px in (pxs if (below and par == std) else [pxs[rng.randrange(1, len(pxs))]]):
+                    classes = [cls(rng.choice(["in", "out"]), sc_pruner, member=True)] + [cls("in", 2, member=True) for _ in range(nmem - 1)]
+                    while len(classes) < 3:
+                        classes.append(cls("out", -1))
+                    classes += [cls("out", -1), cls("out", 3, direct=True), cls("in", -1)]
+                    act = {"a": "prune", "p": "p1", "t": T}
+                    if px is not None:
+                        act["px"] = px
+                    bo = rng.choice([None, 3, 7])
+                    if bo:
+                        act["bo"] = bo
+                    add("prune-with-px", par, classes, [raw(**act), HB, HB, ev("graft", 1), HB], joined=True)
     # departure of mesh members (connection closed), then the mesh recovers
     for par in [std, (2, 1, 3, 1, 0)]:
         add("departure", par,
@@ -685,13 +709,13 @@ ST_KEYS = ("now", "router", "dead", "peers", "topics", "subs", "relays", "myTopi
 def slim(ln, g):
     """Only what MeshTrace reads (TLC spends most of its time parsing the file)."""
     def ctl(r):
-        return {"graft": r["graft"], "prune": [{"topic": x["topic"]} for x in r["prune"]]}
+        return {"graft": r["graft"], "prune": [{"topic": x["topic"], "backoff": x.get("backoff", 0), "npx": len(x.get("px", []))} for x in r["prune"]]}
     evs = []
     for e in ln["ev"]:
         if e["k"] in ("Up", "Down", "Join", "Leave", "Graft", "Prune"):
-            evs.append({k: e[k] for k in ("k", "p", "topic") if k in e})
+            evs.append({k: e[k] for k in ("k", "p", "topic", "t") if k in e})
         elif e["k"] == "Recv" or (e["k"] in ("Send", "Drop") and (e["rpc"]["graft"] or e["rpc"]["prune"])):
-            evs.append({"k": e["k"], "p": e["p"], "rpc": ctl(e["rpc"])})
+            evs.append({"k": e["k"], "p": e["p"], "t": e["t"], "rpc": ctl(e["rpc"])})
     out = {}
     for q, frames in ln["out"].items():
         fr = [ctl(f) for f in frames if f["graft"] or f["prune"]]
@@ -855,6 +879,8 @@ OBLIGATIONS = {
     "graft-retried": "parked GRAFT re-sent by a heartbeat",
     "hb-graft-and-prune-same-peer": "one heartbeat grafted a peer in one topic and pruned it in another",
     "join-fanout-after-member-left": "Join promoted a fanout set after a member of it had left (no heartbeat in between)",
+    "hb-below-dlo-px-pruner-backed-off": "a heartbeat with the mesh below Dlo inside the backoff of a peer whose PRUNE carried PX while it scored below AcceptPXThreshold",
+    "hb-below-dlo-pruner-backed-off": "a heartbeat with the mesh below Dlo while a peer that pruned us is backed off (by the events) and otherwise eligible",
 }
 # obligations with a minimum count: (tag, quick, thorough, what)
 OBLIGATION_COUNTS = [
